@@ -57,6 +57,8 @@ type DTLSR struct {
 	purgeTime time.Duration
 	// dataMutex is a RW-mutex which protects change operations to the algorithm's metadata
 	dataMutex sync.RWMutex
+	// failureMutex serializes ReportFailure's read-modify-write on a bundle's store item
+	failureMutex sync.Mutex
 }
 
 func NewDTLSR(c *Core, config DTLSRConfig) *DTLSR {
@@ -215,8 +217,49 @@ func (dtlsr *DTLSR) NotifyNewBundle(bp BundleDescriptor) {
 	}
 }
 
-func (_ *DTLSR) ReportFailure(_ BundleDescriptor, _ cla.ConvergenceSender) {
-	// if the transmission failed, that is sad, but there is really nothing to do...
+// ReportFailure forgets a failed transmission of a broadcast bundle, such that the peer will be selected again.
+//
+// Broadcast bundles are relayed to every peer which is not listed in the bundle's "routing/dtlsr/sent" property;
+// SenderForBundle adds the selected peers to this list beforehand. All other bundles are only forwarded to the
+// next hop of the routing table, for those there is nothing to do.
+func (dtlsr *DTLSR) ReportFailure(bp BundleDescriptor, sender cla.ConvergenceSender) {
+	bndl, err := bp.Bundle()
+	if err != nil || bndl.PrimaryBlock.Destination != dtlsr.broadcastAddress {
+		return
+	}
+
+	// ReportFailure is called from one goroutine per ConvergenceSender
+	dtlsr.failureMutex.Lock()
+	defer dtlsr.failureMutex.Unlock()
+
+	bundleItem, err := dtlsr.c.store.QueryId(bp.Id)
+	if err != nil {
+		log.WithFields(log.Fields{
+			"bundle": bp.ID(),
+			"error":  err,
+		}).Debug("Bundle not in store")
+		return
+	}
+
+	sentEids, ok := bundleItem.Properties["routing/dtlsr/sent"].([]bpv7.EndpointID)
+	if !ok {
+		return
+	}
+
+	for i := 0; i < len(sentEids); i++ {
+		if sentEids[i] == sender.GetPeerEndpointID() {
+			sentEids = append(sentEids[:i], sentEids[i+1:]...)
+			break
+		}
+	}
+
+	bundleItem.Properties["routing/dtlsr/sent"] = sentEids
+	if err := dtlsr.c.store.Update(bundleItem); err != nil {
+		log.WithFields(log.Fields{
+			"bundle": bp.ID(),
+			"error":  err,
+		}).Warn("Updating BundleItem failed")
+	}
 }
 
 func (dtlsr *DTLSR) SenderForBundle(bp BundleDescriptor) (sender []cla.ConvergenceSender, delete bool) {
